@@ -392,10 +392,18 @@ func runC16(idx int, rng *rand.Rand, tier string) []Case {
 	case 4, 5:
 		var tr vegeta.Targeter
 		hdr := http.Header{"X-Default": {"d"}}
-		if parser == 4 {
-			tr = vegeta.NewHTTPTargeter(bytes.NewReader(in), []byte("default body"), hdr)
-		} else {
-			tr = vegeta.NewJSONTargeter(bytes.NewReader(in), []byte("default body"), hdr)
+		cl, a := c16Call(func() bool { // what the constructor allocates belongs to the parser as well
+			if parser == 4 {
+				tr = vegeta.NewHTTPTargeter(bytes.NewReader(in), []byte("default body"), hdr)
+			} else {
+				tr = vegeta.NewJSONTargeter(bytes.NewReader(in), []byte("default body"), hdr)
+			}
+			return tr != nil
+		})
+		alloc += a
+		if cl != c16Value {
+			final = cl
+			break
 		}
 		step(func() bool {
 			var t vegeta.Target
